@@ -348,11 +348,12 @@ class CircuitDAG(CircuitBase):
         :return: a list of node ids for nodes that do not satisfy any label in labels
         :rtype: list[int]
         """
-        all_nodes = set(self.dag.nodes)
         exclusion_nodes = set()
         for label in labels:
             exclusion_nodes = exclusion_nodes.union(set(self.node_dict.get(label, [])))
-        return list(all_nodes - exclusion_nodes)
+        # collect the remaining node ids from the nodes in DAG (insertion) order: a set difference taken from
+        # set(dag.nodes), which also holds the str ids of the input/output nodes, is ordered by PYTHONHASHSEED
+        return list(set(node for node in self.dag.nodes if node not in exclusion_nodes))
 
     def remove_op(self, node):
         """
